@@ -2,7 +2,7 @@
    [vm_compute] evaluation inside coqc run exactly the same function.
    A case is a list of numbers; the first is the case kind. *)
 From Coq Require Import NArith List Bool.
-From PDB Require Import Model.IndexPage Model.Pipeline.
+From PDB Require Import Model.IndexPage Model.Pipeline Model.Meta.
 Import ListNotations.
 Open Scope N_scope.
 
@@ -69,6 +69,7 @@ Fixpoint run_steps (fuel : nat) (cfg : list ccfg) (nkeys : nat) (s : pstate) (l 
             else if code =? 4 then (SEnactAll, rest)
             else if code =? 5 then (SClean, rest)
             else if code =? 6 then (SReopen, rest)
+            else if code =? 8 then (SReindex, rest)
             else (SEnactOne, rest) in
           let '(s', status) := do_step cfg s st in
           status :: observe (length cfg) nkeys s'
@@ -88,9 +89,51 @@ Definition run_hist (l : list N) : list N :=
   | _ => err_marker
   end.
 
+(* ---- kind 17: metadata / options / file names ---- *)
+Fixpoint take_opts (n : nat) (l : list N) : list copt * list N :=
+  match n, l with
+  | S n', a :: b :: c :: d :: e :: g :: h :: i :: rest =>
+      let '(os, r) := take_opts n' rest in
+      ({| o_preimage := negb (a =? 0); o_uniform := negb (b =? 0); o_refc := negb (c =? 0); o_compression := d;
+          o_ordered := negb (e =? 0); o_multitree := negb (g =? 0); o_append_only := negb (h =? 0);
+          o_direct := negb (i =? 0) |} :: os, r)
+  | _, _ => ([], l)
+  end.
+Definition b2n (b : bool) : N := if b then 1 else 0.
+Definition opt_tokens (o : copt) : list N :=
+  [b2n (o_preimage o); b2n (o_uniform o); b2n (o_refc o); o_compression o; b2n (o_ordered o);
+   b2n (o_multitree o); b2n (o_append_only o); b2n (o_direct o)].
+Fixpoint take_names (n : nat) (l : list N) : list (list N) :=
+  match n, l with
+  | S n', len :: rest => firstn (N.to_nat len) rest :: take_names n' (skipn (N.to_nat len) rest)
+  | _, _ => []
+  end.
+
+Definition run_c17 (l : list N) : list N :=
+  match l with
+  | 1 :: version :: ncols :: rest =>           (* text of the metadata file *)
+      let '(cols, r) := take_opts (N.to_nat ncols) rest in
+      metadata_text version (firstn 32 r) cols
+  | 2 :: text =>                                  (* parse a metadata file *)
+      match parse_metadata text with
+      | MOk m => 0 :: m_version m :: N.of_nat (length (m_cols m)) :: m_salt m ++ flat_map opt_tokens (m_cols m)
+      | MErr c => [c]
+      end
+  | 3 :: n1 :: rest =>                            (* validation at open *)
+      let '(stored, r) := take_opts (N.to_nat n1) rest in
+      match r with
+      | n2 :: r2 => let '(req, _) := take_opts (N.to_nat n2) r2 in [validate stored req]
+      | [] => err_marker
+      end
+  | 4 :: c :: n :: rest =>                        (* which files drop_files removes *)
+      map (fun name => b2n (is_col_file c name)) (take_names (N.to_nat n) rest)
+  | _ => err_marker
+  end.
+
 Definition dispatch (l : list N) : list N :=
   match l with
   | 19 :: rest => run_c19 rest
   | 1 :: rest => run_hist rest
+  | 17 :: rest => run_c17 rest
   | _ => err_marker
   end.
